@@ -96,12 +96,12 @@ type Macro struct {
 }
 
 type GlobalDecl struct {
-	Name      string
-	Kind      string // immutable | guarded_by
-	Once      string
-	Lang      string
-	Line      int
-	File      string
+	Name string
+	Kind string // immutable | guarded_by
+	Once string
+	Lang string
+	Line int
+	File string
 }
 
 type Contracts struct {
